@@ -226,6 +226,27 @@ Theorem C10_bit_toggle : forall rows cols dim hdr data row col,
 Proof. exact c10_bit_toggle. Qed.
 Print Assumptions C10_bit_toggle.
 
+(* all sequences of bit operations (SetBit true/false, ToggleBit) on cells
+   inside the matrix: every cell ends with the value obtained by replaying on
+   its initial value exactly the operations addressed to it *)
+Theorem C10_bit_sequence : forall rows cols dim hdr data ops,
+  rows < 18446744073709551616 -> 1 <= cols -> cols < 18446744073709551616 ->
+  pair_encode rows cols = Some (dim, hdr) ->
+  N.of_nat (length (hdr ++ data)) < 18446744073709551616 ->
+  (if rows =? 0 then 1 else rows) * cols < 18446744073709551616 ->
+  N.of_nat (length hdr) + ((if rows =? 0 then 1 else rows) * cols + 7) / 8 <= N.of_nat (length (hdr ++ data)) ->
+  Forall (fun op => match op with
+                    | (r, c, _) => r < (if rows =? 0 then 1 else rows) /\ c < cols
+                    end) ops ->
+  exists data',
+    apply_bitops (hdr ++ data) ops dim = Some (hdr ++ data') /\
+    length data' = length data /\
+    forall row col, row < (if rows =? 0 then 1 else rows) -> col < cols ->
+      exists v0, entry_get_bit (hdr ++ data) row col dim = Some v0 /\
+                 entry_get_bit (hdr ++ data') row col dim = Some (bit_history ops row col v0).
+Proof. exact c10_bit_sequence. Qed.
+Print Assumptions C10_bit_sequence.
+
 (* non-vacuity: the ledger witnesses.  F26: a 5-byte column count now decodes;
    F27: set then clear on a 4x4 bit matrix; a 3-byte entry in the last cell of
    a 2x3 matrix; pack across a level boundary *)
